@@ -287,6 +287,45 @@ def swap (a b : PTable) : PTable × PTable :=
     | none => { a with self := b.self, begin := .stl b.self }
   (a', b')
 
+/-- one half of `swap`: the object `self` takes over the list, size, capacity, bucket array, free list and blocks of `src`:
+    `if((endItem.prev = src.endItem.prev)) { endItem.prev->next = &endItem; _begin.item = src._begin.item; } else _begin.item = &endItem;
+     _size = src._size; …` -/
+def adopt (self : Bool) (src : PTable) : PTable :=
+  match src.endPrev with
+  | some l => { src with self := self, items := upd src.items l { src.items l with next := .stl self } }
+  | none => { src with self := self, begin := .stl self }
+
+/-- `a.swap(a)`: both halves of `swap` act on the same object (the saved `tmp…` values are its own) -/
+def swapSelf (a : PTable) : PTable := adopt a.self (adopt a.self a)
+
+/-- `HashSet::append(const HashSet& other)` with `other` = `*this`:
+    `for(i = _begin.item; i != &endItem; i = i->next) insert(_end, i->key)` – every read (`i->key`, `i->next`) is from the
+    table as the previous `insert` left it -/
+def appendSelfLoop (kind : Kind) (h : Nat → Nat) : Nat → Nxt → PTable → Option PTable
+  | _, .stl o, t => if o = t.self then some t else none
+  | 0, .item _, _ => none
+  | f + 1, .item i, t =>
+    match t.insert kind h (.stl t.self) (t.items i).key (t.items i).value with
+    | none => none
+    | some r => appendSelfLoop kind h f (r.1.items i).next r.1
+
+def appendSelf (kind : Kind) (h : Nat → Nat) (t : PTable) : Option PTable :=
+  appendSelfLoop kind h t.size t.begin t
+
+/-- `HashSet::remove(const HashSet& other)` with `other` = `*this`:
+    `for(i = _begin.item; i != &endItem; i = i->next) remove(i->key)` – `i->next` is read from the item AFTER it was
+    unlinked and pushed on the free list (`remove` leaves `next` alone) -/
+def removeSelfLoop (h : Nat → Nat) : Nat → Nxt → PTable → Option PTable
+  | _, .stl o, t => if o = t.self then some t else none
+  | 0, .item _, _ => none
+  | f + 1, .item i, t =>
+    match t.removeKey h (t.items i).key with
+    | none => none
+    | some t' => removeSelfLoop h f (t'.items i).next t'
+
+def removeSelf (h : Nat → Nat) (t : PTable) : Option PTable :=
+  removeSelfLoop h t.size t.begin t
+
 end PTable
 
 structure PState where
@@ -387,6 +426,10 @@ def pstep (kind : Kind) (h : Nat → Nat) (s : PState) (op : Op) : Option (PStat
   | .appendAll t => optSet s t (PTable.appendAll kind h (s.get t) (s.get (!t))) .unit
   | .removeAll t => optSet s t (PTable.removeAll h (s.get t) (s.get (!t))) .unit
   | .setValue t k v => optSet s t ((s.get t).setValue h k v) .unit
+  | .assignSelf _ => some (s, .unit)        -- `if(this == &other) return *this;`
+  | .swapSelf t => some (s.set t (s.get t).swapSelf, .unit)
+  | .appendSelf t => optSet s t (PTable.appendSelf kind h (s.get t)) .unit
+  | .removeSelf t => optSet s t (PTable.removeSelf h (s.get t)) .unit
   | .find t k =>
     match (s.get t).find h k, (s.get t).order with
     | some r, some l => some (s, .onum (r.map (fun id => posOf id l)))
